@@ -331,7 +331,16 @@ def r04f(ctx):
     ctx.check(ok, "R04f", f"{SIG}.__init__", "short value arrays are zero-padded at the end", u(pad[0].value) if pad else "", key_detail="pad with zeros")
 
 
+def r04g(ctx):
+    """`a function-backed signal re-evaluates its function exactly` needs FunctionSignal.values to be the eager definition and the two
+    copies of the buffer-point count (_full_times / _value_window) to agree: C06's R06d, reported here as well."""
+    from . import c06
+    from ._cross import relay
+    relay(ctx, "R04g", "FunctionSignal.values is the eager evaluation of its definition; _full_times and _value_window count buffer points alike (= R06d)", "C06", c06.r06d, "R06d", kind="N")
+
+
 def run(ctx):
+    ctx.guard(r04g)
     ctx.guard(r04a)
     ctx.guard(r04b)
     ctx.guard(r04c)
